@@ -96,6 +96,8 @@ def do_call(m, call, x, c):
         return m.sample(3, context=c)
     if call == 'sample_and_log_prob':
         return m.sample_and_log_prob(3, context=c)
+    if call == 'sample_batched':
+        return m.sample(3, context=c, batch_size=2)
     if call == 'sample1':
         return m.sample(1, context=c)
     if call == 'sample_and_log_prob1':
@@ -197,7 +199,7 @@ def prepare(case):
     x = make_kind(x0, case_kind)
     c = make_kind(c0, ckind)
     callers = {}
-    if case.call not in ('sample', 'sample_and_log_prob', 'sample1', 'sample_and_log_prob1'):
+    if case.call not in ('sample', 'sample_and_log_prob', 'sample1', 'sample_and_log_prob1', 'sample_batched'):
         callers['inputs'] = x
     if c is not None:
         callers['context'] = c
@@ -448,7 +450,7 @@ def run_history(cfg, mode, seq, seed):
     for i, (call, atom, kind, x0, c0) in enumerate(calls):
         x = make_kind(x0, kind)
         c = make_kind(c0, 'contig' if kind == 'contig' else KINDS[(KINDS.index(kind) + 2) % 5])
-        if call not in ('sample', 'sample_and_log_prob', 'sample1', 'sample_and_log_prob1'):
+        if call not in ('sample', 'sample_and_log_prob', 'sample1', 'sample_and_log_prob1', 'sample_batched'):
             all_callers['inputs%d' % i] = x
         if c is not None:
             all_callers['context%d' % i] = c
